@@ -307,8 +307,8 @@ def run(ctx, args):
     ctx.build("Props/C06.vo")
     ctx.trusted.append("lxml/libxml2 XPath engine as the reference Ref.v is validated against; cssselect as CSS translator (oracle)")
 
-    n_docs = 28 if quick else 200
-    per_doc = 90 if quick else 500
+    n_docs = 28 if quick else 120
+    per_doc = 90 if quick else 300
     docs = FIXED_DOCS + [gen_doc(rng) for _ in range(n_docs)]
     preamble = []
     cases = []
@@ -451,6 +451,14 @@ CSS_ATOMS = ["a", "b", "c", "*", "p|a", "p|b", "[k]", '[k="1"]', 'a[k="1"]', 'b[
              "a:not([k])", 'a[k!="1"]', "a:first-child", "a + b", ".k"]
 
 
+def safe_str(node):
+    """str(node) of the implementation raises KeyError on some namespace constellations (findings 13b/13e of C02/C11)"""
+    try:
+        return str(node)[:200]
+    except Exception as ex:     # noqa: BLE001
+        return "<unserialisable: %s>" % type(ex).__name__
+
+
 def css(ctx, docs):
     from cssselect import GenericTranslator
     from _delb.xpath import _css_to_xpath, parse
@@ -481,7 +489,7 @@ def css(ctx, docs):
             real = xq.real_outcome(lambda: node.css_select(sel, namespaces=um), tree)
             ref_xp = GenericTranslator().css_to_xpath(sel, prefix="descendant::")
             dflt = dict(eff).get("", "")
-            cases.append({"sel": sel, "xpath": xp, "real": real, "tree": tree, "node": node, "eff": eff, "doc": str(d.root)[:200],
+            cases.append({"sel": sel, "xpath": xp, "real": real, "tree": tree, "node": node, "eff": eff, "doc": safe_str(d.root),
                           "ctx": list(pos), "ref_xp": ref_xp})
             terms.append("run_case C%d %s %s %s" % (di, xq.coq_nsmap(eff), xpath_ast.coq_ast(ast), xq.coq_pos(pos)))
     res = ctx.coq_eval("c06_css", xq.REQ + "\n".join(pre) + "\n", terms, chunk=150)
